@@ -233,6 +233,21 @@ def check_case(case):
                 out.bad(f"psi not continuous through neutral: psi({sx}) = {float(pbl_model.psi(np.float64(sx)))!r}")
             if not abs(float(pbl_model.phi(np.float64(sx))) - 1.0) <= 9 * eps:
                 out.bad(f"phi not continuous through neutral: phi({sx}) = {float(pbl_model.phi(np.float64(sx)))!r}")
+    # array evaluation: same numbers as scalar evaluation, a new array, the caller's array untouched
+    xa = np.array([x, 0.5 * x, -0.25 * abs(x), 0.0, 0.3 * abs(x)])
+    keep = xa.copy()
+    pa = pbl_model.psi(xa)
+    fa = pbl_model.phi(xa)
+    if not np.array_equal(xa, keep):
+        out.bad(f"psi/phi modified the array passed to them: {keep.tolist()} -> {xa.tolist()}")
+    elif pa is xa or fa is xa:
+        out.bad("psi/phi returned the caller's array object")
+    else:
+        for xi, pv, fv in zip(keep, np.asarray(pa), np.asarray(fa)):
+            if not (abs(pv - _psi(xi)) <= 1e-12 * max(1.0, abs(_psi(xi))) and abs(fv - _phi(xi)) <= 1e-12 * _phi(xi)):
+                out.bad(f"array evaluation psi/phi({xi}) = {pv!r}/{fv!r}, scalar formulas give {_psi(xi)!r}/{_phi(xi)!r}")
+                break
+
     # reference model's copies
     zz = np.array([zm, 0.5 * zm])
     LL = np.array([L, L])
